@@ -45,6 +45,16 @@ func main() {
 		}
 		fmt.Println("replay: not confirmed")
 		os.Exit(0)
+	case "aliases":
+		// stable closure names (alias -> positional), for writing contracts
+		E, err := gocv.Load("/repo", "/verif/spec", []string{"./..."})
+		if err != nil {
+			fmt.Fprintln(os.Stderr, err)
+			os.Exit(2)
+		}
+		for a, p := range E.CS.Alias {
+			fmt.Printf("%s\t%s\n", p, a)
+		}
 	default:
 		fmt.Fprintln(os.Stderr, "unknown command")
 		os.Exit(2)
